@@ -89,12 +89,20 @@ def expand_paths(paths):
                 except AnalysisError:
                     kinds = None
                 if kinds != [("EXISTING", True), ("OUTLIER", True)]:
+                    # state tests before tests on the uniform draw (`no clone yet or u < 1/2`): each branch then lies
+                    # within one state, with the draw's interval conditional on it
+                    def is_u(x):
+                        try:
+                            return classify(x)[0] == "U"
+                        except AnalysisError:
+                            return False
+                    disj = [x for x in core[1] if not is_u(x)] + [x for x in core[1] if is_u(x)]
                     if pol:
                         branches = []
-                        for i, x in enumerate(core[1]):
-                            branches.append([g_not(y) for y in core[1][:i]] + [x])
+                        for i, x in enumerate(disj):
+                            branches.append([g_not(y) for y in disj[:i]] + [x])
                     else:
-                        branches = [[g_not(y) for y in core[1]]]
+                        branches = [[g_not(y) for y in disj]]
                     alts = [a + b for a in alts for b in branches]
                     continue
             alts = [a + [g] for a in alts]
@@ -456,7 +464,16 @@ def s(self):
     if (self.parent_particle is None) or (len(self.parent_particle.tree_roots) == 0):
         self.parent_is_empty_tree = True
 """, idist, **CI)
-        same_store(ctx, "S1", cls + "._init_dist: parent_is_empty_tree set iff there is no parent or no top-level clone", idist, exd, spe, "parent_is_empty_tree")
+        # the constructor default is False: "left alone" and "set to False" are the same state
+        from ..termflow import rewrite as _rw
+
+        def dflt(a):
+            if a[0] == "undef" and "parent_is_empty_tree" in repr(a):
+                return Poly.const(0)
+            return None
+
+        same(ctx, "S1", cls + "._init_dist: parent_is_empty_tree set iff there is no parent or no top-level clone", idist,
+             _rw(next(iter(gs.values())), dflt), _rw(next(iter(spe.stores("parent_is_empty_tree").values())), dflt), ".parent_is_empty_tree")
     ctx.analysed(init, kinit, idist, f, g, h)
     # ---- new-clone arm
     n = prog.fn(cls + "._propose_new_node")
@@ -566,8 +583,10 @@ def s(self):
     }
     for name, src in specs.items():
         f = prog.fn(cls + "." + name)
-        ex = extract(prog, f, **CI)
-        sp = spec(prog, src, f, **CI)
+        # these arms read the parent's summaries: they are written for, and reached with, a parent (X1 / A2 decide the
+        # dispatch); an arm that also caters for "no parent" through a shared helper is compared under that premise
+        ex = extract(prog, f, assume="self.parent_particle is not None", **CI)
+        sp = spec(prog, src, f, assume="self.parent_particle is not None", **CI)
         same(ctx, "A1", "%s.%s" % (cls, name), f, ex.result, sp.result, "proposed tree")
         ctx.analysed(f)
     th = prog.fn("TreeHolder.tree@setter")
@@ -627,10 +646,14 @@ def rule_X(ctx):
     ctx.rule("X1", "every candidate starts from parent_tree.copy(), a fresh Tree(...) or parent_particle.tree (rebuilt from the dictionary form)", 9)
     mutators = {"add_data_point_to_node", "add_data_point_to_outliers", "create_root_node", "add_subtree", "remove_subtree", "remove_data_point_from_node", "remove_data_point_from_outliers"}
     n = 0
+    done = set()
     for cname in ("BootstrapProposalDistribution", "SemiAdaptedProposalDistribution", "FullyAdaptedProposalDistribution"):
         ci = prog.cls(cname)
-        for m in ci.methods.values():
-            n += _check_fresh(ctx, m, mutators)
+        for c in prog.mro(ci):  # helpers hoisted into a common base class are still this proposal's code
+            for m in c.methods.values():
+                if m.qualname not in done:
+                    done.add(m.qualname)
+                    n += _check_fresh(ctx, m, mutators)
     n += _check_fresh(ctx, prog.fn("semi_adapted.get_cached_new_tree"), mutators)
 
 
@@ -655,7 +678,7 @@ def _check_fresh(ctx, fi, mutators):
                     name = u(c.func.value)
                     d = last.get(name)
                     sites[(name, id(c))] = c
-                    verdict.setdefault((name, id(c)), []).append((d is not None and _is_fresh(d), u(d) if d is not None else "no local definition"))
+                    verdict.setdefault((name, id(c)), []).append((d is not None and _is_fresh(d, ctx.prog, fi), u(d) if d is not None else "no local definition"))
     count = 0
     for (name, cid), vs in verdict.items():
         bad = sorted({txt for ok, txt in vs if not ok})
@@ -666,13 +689,43 @@ def _check_fresh(ctx, fi, mutators):
     return count
 
 
-def _is_fresh(d):
+def _is_fresh(d, prog=None, fi=None, depth=0):
     if isinstance(d, ast.Call):
         f = d.func
         if isinstance(f, ast.Attribute) and f.attr == "copy" and not d.args:
             return True
         if isinstance(f, ast.Name) and f.id == "Tree":
             return True
+        # a helper every returning path of which hands back a fresh object (`self._copy_parent_tree()`)
+        if prog is not None and fi is not None and depth < 3:
+            h = None
+            if isinstance(f, ast.Attribute) and isinstance(f.value, ast.Name) and f.value.id in ("self", "cls") and fi.cls is not None:
+                h = prog.method(fi.cls, f.attr)
+            elif isinstance(f, ast.Name):
+                h = prog.resolve_function(f.id, fi.module)
+            if h is not None and h is not fi:
+                from ..paths import enumerate_paths
+
+                seen = 0
+                for steps, oc in enumerate_paths(h.node.body):
+                    if oc == "raise":
+                        continue
+                    if oc != "return":
+                        return False
+                    last, ret = {}, None
+                    for st in steps:
+                        n = st.node
+                        if st.kind == "stmt" and isinstance(n, ast.Assign):
+                            for t in n.targets:
+                                last[u(t)] = n.value
+                        if st.kind == "stmt" and isinstance(n, ast.Return):
+                            ret = n.value
+                    if isinstance(ret, ast.Name):
+                        ret = last.get(ret.id)
+                    if ret is None or not _is_fresh(ret, prog, h, depth + 1):
+                        return False
+                    seen += 1
+                return seen > 0
     # parent_particle.tree: the property rebuilds a Tree from the stored dictionary form on every read
     if isinstance(d, ast.Attribute) and d.attr == "tree" and u(d.value).endswith("particle"):
         return True
